@@ -10,13 +10,23 @@ package trie
 //  * Process records data only for an item that was requested and not yet processed, and for a trie node only after it decoded;
 //  * commit is entered only with data present and no open dependency, stores into the membatch BEFORE it forgets the request, is the only
 //    function that writes the membatch and — with schedule, which never deletes — the only one that updates `requests`;
-//  * dependency counts: Process adds exactly the number of child requests and schedules exactly those; schedule merges duplicates;
+//  * dependency accounting (ghost c19Kids = registered child listings per request, see DEPENDENCY ACCOUNTING below): AddSubTrie / AddRawEntry raise
+//    the count of exactly the request pending for the given parent hash by exactly one, build a childless request that lists exactly that
+//    ancestor and hand it to schedule — or change nothing when the hash is locally known; schedule registers the listed parents and merges
+//    duplicates without touching a count; commit releases each listed parent exactly once and recurses only at 0; for all of them
+//    deps - c19Kids is unchanged for every pre-existing request ([deps-track-children]); Process adds exactly the number of child requests
+//    and schedules exactly those;
 //  * Commit(dbw) writes the membatch in insertion order and reports the index of the failed write.
 // The global theorem (Pending() == 0 ==> the database holds the complete trie with the same root) is NOT decided (needs C13).
 
 // `requests` is updated by schedule (insert only) and commit (delete only); the membatch is written by commit only.
 //@ owns Sync.requests by NewSync, (*Sync).schedule, (*Sync).commit props C19
 //@ owns syncMemBatch.batch, syncMemBatch.order by newSyncMemBatch, (*Sync).commit props C19
+// dependency counts are written only by the three registration sites (AddSubTrie, AddRawEntry, Process) and by commit; parent lists only where a
+// request is built (AddSubTrie, AddRawEntry, children) and by schedule (duplicate merge): each of these is under a [deps-track-children] /
+// count clause below (children: construction only, not under contract).
+//@ owns request.deps by (*Sync).AddSubTrie, (*Sync).AddRawEntry, (*Sync).Process, (*Sync).commit props C19
+//@ owns request.parents by (*Sync).AddSubTrie, (*Sync).AddRawEntry, (*Sync).schedule, (*Sync).children props C19
 
 // ---------------------------------------------------------------------------------------------------------------------
 // commit: membatch discipline
@@ -34,11 +44,30 @@ package trie
 //@ ensures [stored] in(h0, s.membatch.batch)
 //@ ensures [objects] s.membatch == old(s.membatch) && s.requests == old(s.requests) && s.membatch.batch == old(s.membatch.batch)
 //@ ensures [membatch-grows] forall h: common.Hash :: { old(in(h, mapdom(s.membatch.batch))) } old(in(h, s.membatch.batch)) ==> in(h, s.membatch.batch)
+//@ loop rangeindex invariant [requests-shrink] forall h: common.Hash :: { in(h, s.requests) } in(h, s.requests) ==> old(in(h, s.requests)) && s.requests[h] == old(s.requests[h])
+//@ loop rangeindex invariant [forgotten] !in(h0, s.requests)
+//@ ensures [forgotten] !in(h0, s.requests) && s.requests[h0] == nil
+//@ ensures [requests-shrink] forall h: common.Hash :: { in(h, s.requests) } in(h, s.requests) ==> old(in(h, s.requests)) && s.requests[h] == old(s.requests[h])
+// dependency accounting: committing a request releases every parent it lists exactly once (the k-th iteration lowers the count of the k-th
+// LISTED parent by one; the ghost is keyed on the list, not on the loop variable), no parent list is changed, and for every request the
+// difference deps - (registered child listings) is preserved, through the recursive commits too.
+//@ ghost var c19ParentDeps0: int
+//@ ghost before store deps#1: c19ParentDeps0 := req.parents[rangeindex + 1].deps
+//@ ghost before store deps#1: c19Kids := store(c19Kids, req.parents[rangeindex + 1], c19Kids[req.parents[rangeindex + 1]] - 1)
+//@ modifies all, c19Kids, c19ParentDeps0
+//@ assert after store deps#1: [listed-parent-released-once] parent == req.parents[rangeindex + 1] && c19Inc(c19ParentDeps0, parent.deps)
+//@ loop rangeindex invariant [index] -1 <= rangeindex && rangeindex < old(len(req.parents))
+//@ assert before return#1: [every-listed-parent-released] rangeindex + 1 == old(len(req.parents))
+//@ loop rangeindex invariant [parent-lists-untouched] forall r: *request :: { r.parents } r.parents == old(r.parents) && elems(r.parents) == old(elems(r.parents))
+//@ loop rangeindex invariant [deps-track-children] forall r: *request :: { r.deps } old(allocated(r)) ==> (r.deps - c19Kids[r]) % 2^64 == (old(r.deps) - old(c19Kids)[r]) % 2^64
+// (the next clause reads the parents / deps heaps of the merged exit state outside a quantifier first: engine_requests/C19.md #9)
+//@ ensures [own-parent-list-untouched] req.parents == old(req.parents) && elems(req.parents) == old(elems(req.parents)) && (req.deps - c19Kids[req]) % 2^64 == (old(req.deps) - old(c19Kids)[req]) % 2^64
+//@ ensures [parent-lists-untouched] forall r: *request :: { r.parents } r.parents == old(r.parents) && elems(r.parents) == old(elems(r.parents))
+//@ ensures [deps-track-children] forall r: *request :: { r.deps } old(allocated(r)) ==> (r.deps - c19Kids[r]) % 2^64 == (old(r.deps) - old(c19Kids)[r]) % 2^64
 
 // ---------------------------------------------------------------------------------------------------------------------
 // schedule: inserts or merges, never deletes
 //@ func (*Sync).schedule props C19
-//@ opt abstract-slices
 //@ requires [nonnil] s != nil && req != nil && s.requests != nil && s.queue != nil
 //@ ensures [objects] s.requests == old(s.requests) && s.membatch == old(s.membatch)
 //@ ensures [inserted] !old(in(req.hash, s.requests)) ==> in(req.hash, s.requests) && s.requests[req.hash] == req
@@ -47,6 +76,115 @@ package trie
 //@ ensures [never-deletes] forall h: common.Hash :: { in(h, s.requests) } old(in(h, s.requests)) ==> in(h, s.requests) && (h != req.hash ==> s.requests[h] == old(s.requests[h]))
 //@ ensures [nothing-else-inserted] forall h: common.Hash :: { in(h, s.requests) } in(h, s.requests) && h != old(req.hash) ==> old(in(h, s.requests))
 //@ ensures [counts-untouched] forall r: *request :: { r.deps } r.deps == old(r.deps) && r.data == old(r.data) && r.raw == old(r.raw)
+//@ ensures [request-key-untouched] req.hash == old(req.hash)
+//@ ensures [callback-untouched] forall r: *request :: { r.callback } r.callback == old(r.callback) && r.depth == old(r.depth)
+//@ ensures [inserted-as-given] !old(in(req.hash, s.requests)) ==> (forall r: *request :: { r.parents } r.parents == old(r.parents) && elems(r.parents) == old(elems(r.parents)))
+//@ ensures [merged-parent-appended] old(in(req.hash, s.requests)) && old(s.requests[req.hash]) != nil && old(len(req.parents)) == 1 ==> s.requests[req.hash].parents[old(len(s.requests[req.hash].parents))] == old(req.parents[0])
+//@ ensures [merged-others-untouched] forall r: *request :: { r.parents } r != old(s.requests[req.hash]) ==> r.parents == old(r.parents)
+// dependency accounting: schedule IS the registration point of a child with every parent it lists (the list is inserted with the request, or
+// appended to the pending request for the same hash)
+// (anchored at the returns, not `at entry`: a ghost update at entry is applied BEFORE the engine snapshots old(), so old(c19Kids) would be the updated map)
+//@ ghost before return: c19Kids := c19Bump(c19Kids, old(elems(req.parents)), old(off(req.parents)), old(len(req.parents)))
+//@ modifies all, c19Kids
+//@ ensures [registers-children] c19Kids == c19Bump(old(c19Kids), old(elems(req.parents)), old(off(req.parents)), old(len(req.parents)))
+//@ ensures [registers-child] old(len(req.parents)) == 1 ==> c19Kids == store(old(c19Kids), old(req.parents[0]), old(c19Kids)[old(req.parents[0])] + 1)
+//@ ensures [registers-no-child] old(len(req.parents)) == 0 ==> c19Kids == old(c19Kids)
+
+// ---------------------------------------------------------------------------------------------------------------------
+// DEPENDENCY ACCOUNTING. c19Kids[p] = number of registered, not yet committed child listings of request p: the number of pairs (child request
+// c held in s.requests, index i) with c.parents[i] == p. It is raised by schedule (one per listed parent: a new request is inserted with its
+// parent list, a duplicate's parent list is appended to the pending request) and lowered by commit (one per listed parent of the committed
+// request). The request-graph invariant behind "an interrupted sync never presents a partially filled trie as complete" is
+//      for every request r:  r.deps == c19Kids[r]      (a request is committed only at deps == 0, i.e. with no child outstanding)
+// and it is carried in differential form by the clause [deps-track-children] of AddSubTrie, AddRawEntry, commit (through its recursion) and the
+// state-sync leaf callback (core/state): r.deps - c19Kids[r] is unchanged, for every request r that existed before the call (modulo 2^64, deps
+// being a machine integer); schedule changes no count and registers exactly the listed parents. NOT carried through Process / children: there
+// only the local clauses hold (Process raises the count by exactly the number of children it schedules; that each child built by children lists
+// the node as its one parent is not under contract), see props/C19.json not_decided.
+//@ ghost var c19Kids: map[Ref]int
+// one more listing for each of the n parents a[lo], …, a[lo+n-1]
+//@ spec rec func c19Bump(m: map[Ref]int, a: seq[Ref], lo: int, n: int) map[Ref]int = if n <= 0 then m else store(c19Bump(m, a, lo, n - 1), a[lo + n - 1], c19Bump(m, a, lo, n - 1)[a[lo + n - 1]] + 1)
+//@ ghost var c19Known: bool
+//@ spec func c19NoParent(h: common.Hash) bool = forall i: int :: { h[i] } h[i] == 0
+// n is o+1 as computed on Go's int (wraps at the maximal int)
+//@ spec func c19Inc(n: int, o: int) bool = n == o + 1 || n == o + 1 - 2^64
+// h.Bytes() returns a slice of a copy of h: no effect on any modelled object
+//@ effectfree (github.com/youchainhq/go-youchain/common.Hash).Bytes
+
+// reading the database has no effect on the scheduler's objects
+//@ func (DatabaseReader).Has props C19
+//@ trusted
+//@ modifies nothing
+//@ func (DatabaseReader).Get props C19
+//@ trusted
+//@ modifies nothing
+
+// AddRawEntry: an entry that is locally known (empty, in the membatch, in the database) changes nothing; otherwise a childless raw request for
+// `hash` is handed to schedule, and when a parent hash is given the request pending for it waits for exactly one more child.
+//@ func (*Sync).AddRawEntry props C19
+//@ requires [nonnil] s != nil && s.membatch != nil && s.membatch.batch != nil && s.requests != nil && s.queue != nil
+//@ requires [nonnil] !c19NoParent(parent) ==> s.requests[parent] != nil
+// (a pointer stored in a map refers to an allocated object: a tautology of Go's memory model; the engine bounds a value read from a map by the
+//  allocation counter at the time of the READ, which here is after `req` was allocated, so without it `ancestor` may alias the new request)
+//@ assume [stored-pointer-is-allocated] allocated(s.requests[parent])
+//@ let anc = s.requests[parent]
+//@ let linked = !c19NoParent(parent)
+//@ let known0 = hash == emptyState || in(hash, s.membatch.batch)
+//@ let ancDeps0 = anc.deps          // (also makes the deps heap a named entry version: see engine_requests/C19.md #9)
+//@ ghost at entry: c19Known := false
+//@ ghost after call (DatabaseReader).Has: c19Known := ret0
+//@ modifies all, c19Kids, c19Known
+//@ assert before call (*Sync).schedule: [parent-waits-for-one-more] linked ==> c19Inc(anc.deps, old(anc.deps))
+//@ assert before call (*Sync).schedule: [no-other-count-touched] forall r: *request :: { r.deps } old(allocated(r)) && (!linked || r != anc) ==> r.deps == old(r.deps)
+//@ assert before call (*Sync).schedule: [lists-exactly-the-parent] (linked ==> len(a1.parents) == 1 && a1.parents[0] == anc) && (!linked ==> len(a1.parents) == 0)
+//@ assert before call (*Sync).schedule: [childless-raw-request] a0 == s && a1.hash == hash && a1.raw && a1.deps == 0 && isnil(a1.data)
+// (this clause comes first: it reads the deps heap of the exit state outside a quantifier, see engine_requests/C19.md #9)
+//@ ensures [parent-waits-for-one-more] !known0 && !c19Known && linked ==> c19Inc(anc.deps, old(anc.deps)) && c19Kids == store(old(c19Kids), anc, old(c19Kids)[anc] + 1)
+//@ ensures [known-nothing-registered] known0 || c19Known ==> c19Kids == old(c19Kids)
+//@ ensures [known-nothing-scheduled] known0 || c19Known ==> s.requests == old(s.requests) && mapdom(s.requests) == old(mapdom(s.requests)) && mapval(s.requests) == old(mapval(s.requests))
+// (with [no-other-count-touched] below: no count at all changes; kept unquantified, callers chain several registrations)
+//@ ensures [known-no-count-touched] known0 || c19Known ==> anc.deps == old(anc.deps)
+//@ ensures [no-other-count-touched] forall r: *request :: { r.deps } old(allocated(r)) && r != anc ==> r.deps == old(r.deps) && c19Kids[r] == old(c19Kids)[r]
+//@ ensures [pending-requests-kept] s.requests == old(s.requests) && (forall h: common.Hash :: { in(h, s.requests) } old(in(h, s.requests)) ==> in(h, s.requests) && s.requests[h] == old(s.requests[h]))
+//@ ensures [scheduled] !known0 && !c19Known ==> in(hash, s.requests)
+//@ ensures [unlinked-no-count-touched] !known0 && !c19Known && !linked ==> c19Kids == old(c19Kids) && anc.deps == old(anc.deps)
+//@ ensures [new-request] !known0 && !c19Known && !old(in(hash, s.requests)) ==> fresh(s.requests[hash]) && s.requests[hash].deps == 0 && s.requests[hash].raw &&
+//@     (linked ==> len(s.requests[hash].parents) == 1 && s.requests[hash].parents[0] == anc) && (!linked ==> len(s.requests[hash].parents) == 0)
+//@ ensures [deps-track-children] forall r: *request :: { r.deps } old(allocated(r)) ==> (r.deps - c19Kids[r]) % 2^64 == (old(r.deps) - old(c19Kids)[r]) % 2^64
+
+
+// AddSubTrie: the same for a (sub-)trie root: known = empty root, in the membatch, or a decodable node in the database; the request is a trie-node
+// request carrying the leaf callback.
+//@ func (*Sync).AddSubTrie props C19
+//@ requires [nonnil] s != nil && s.membatch != nil && s.membatch.batch != nil && s.requests != nil && s.queue != nil
+//@ requires [nonnil] !c19NoParent(parent) ==> s.requests[parent] != nil
+// (a pointer stored in a map refers to an allocated object: a tautology of Go's memory model; the engine bounds a value read from a map by the
+//  allocation counter at the time of the READ, which here is after `req` was allocated, so without it `ancestor` may alias the new request)
+//@ assume [stored-pointer-is-allocated] allocated(s.requests[parent])
+//@ let anc = s.requests[parent]
+//@ let linked = !c19NoParent(parent)
+//@ let known0 = root == emptyRoot || in(root, s.membatch.batch)
+//@ let ancDeps0 = anc.deps          // (also makes the deps heap a named entry version: see engine_requests/C19.md #9)
+//@ ghost at entry: c19Known := false
+//@ ghost after call decodeNode: c19Known := (ret0 != nil && ret1 == nil)
+//@ modifies all, c19Kids, c19Known
+//@ assert before call (*Sync).schedule: [parent-waits-for-one-more] linked ==> c19Inc(anc.deps, old(anc.deps))
+//@ assert before call (*Sync).schedule: [no-other-count-touched] forall r: *request :: { r.deps } old(allocated(r)) && (!linked || r != anc) ==> r.deps == old(r.deps)
+//@ assert before call (*Sync).schedule: [lists-exactly-the-parent] (linked ==> len(a1.parents) == 1 && a1.parents[0] == anc) && (!linked ==> len(a1.parents) == 0)
+//@ assert before call (*Sync).schedule: [childless-node-request] a0 == s && a1.hash == root && !a1.raw && a1.deps == 0 && isnil(a1.data) && a1.callback == callback
+// (this clause comes first: it reads the deps heap of the exit state outside a quantifier, see engine_requests/C19.md #9)
+//@ ensures [parent-waits-for-one-more] !known0 && !c19Known && linked ==> c19Inc(anc.deps, old(anc.deps)) && c19Kids == store(old(c19Kids), anc, old(c19Kids)[anc] + 1)
+//@ ensures [known-nothing-registered] known0 || c19Known ==> c19Kids == old(c19Kids)
+//@ ensures [known-nothing-scheduled] known0 || c19Known ==> s.requests == old(s.requests) && mapdom(s.requests) == old(mapdom(s.requests)) && mapval(s.requests) == old(mapval(s.requests))
+// (with [no-other-count-touched] below: no count at all changes; kept unquantified, callers chain several registrations)
+//@ ensures [known-no-count-touched] known0 || c19Known ==> anc.deps == old(anc.deps)
+//@ ensures [no-other-count-touched] forall r: *request :: { r.deps } old(allocated(r)) && r != anc ==> r.deps == old(r.deps) && c19Kids[r] == old(c19Kids)[r]
+//@ ensures [pending-requests-kept] s.requests == old(s.requests) && (forall h: common.Hash :: { in(h, s.requests) } old(in(h, s.requests)) ==> in(h, s.requests) && s.requests[h] == old(s.requests[h]))
+//@ ensures [scheduled] !known0 && !c19Known ==> in(root, s.requests)
+//@ ensures [unlinked-no-count-touched] !known0 && !c19Known && !linked ==> c19Kids == old(c19Kids) && anc.deps == old(anc.deps)
+//@ ensures [new-request] !known0 && !c19Known && !old(in(root, s.requests)) ==> fresh(s.requests[root]) && s.requests[root].deps == 0 && !s.requests[root].raw && s.requests[root].callback == callback &&
+//@     (linked ==> len(s.requests[root].parents) == 1 && s.requests[root].parents[0] == anc) && (!linked ==> len(s.requests[root].parents) == 0)
+//@ ensures [deps-track-children] forall r: *request :: { r.deps } old(allocated(r)) ==> (r.deps - c19Kids[r]) % 2^64 == (old(r.deps) - old(c19Kids)[r]) % 2^64
 
 // ---------------------------------------------------------------------------------------------------------------------
 // Pending
@@ -70,21 +208,25 @@ package trie
 //@ modifies nothing
 //@ func (*Sync).children props C19
 //@ nobody
-//@ ensures s.requests == old(s.requests) && mapdom(s.requests) == old(mapdom(s.requests)) && mapval(s.requests) == old(mapval(s.requests)) && req.data == old(req.data) && req.raw == old(req.raw)
+//@ modifies all, c19Kids, c19Known
+//@ ensures s.requests == old(s.requests) && s.membatch == old(s.membatch) && s.queue == old(s.queue) && req.data == old(req.data) && req.raw == old(req.raw)
 
 //@ func (*Sync).Process props C19
 //@ requires [nonnil] s != nil && s.requests != nil && s.membatch != nil && s.membatch.batch != nil && s.queue != nil
 //@ ghost after call decodeNode: c19DecodeOK := (ret1 == nil)
-//@ ghost before store deps#1: c19Deps0 := request.deps
+// (c19Deps0: the count as children left it — the leaf callback inside children may already have raised it for sub-tries / code it registered)
+//@ ghost after call (*Sync).children: c19Deps0 := request.deps
 //@ ghost before store data#1: c19Data := item.Data
-//@ modifies all, c19DecodeOK, c19Deps0, c19Data
+//@ modifies all, c19DecodeOK, c19Deps0, c19Data, c19Kids, c19Known, c19ParentDeps0
 // (anchors count in SSA block order: store data#1 is the trie-node branch at sync.go:194, #2 the raw branch at :184)
 //@ assert before store data#1: [requested-and-unprocessed] request != nil && request == s.requests[item.Hash] && isnil(request.data) && !request.raw
 //@ assert before store data#1: [decoded-before-recorded] c19DecodeOK
 //@ assert before store data#2: [requested-and-unprocessed-raw] request != nil && request == s.requests[item.Hash] && isnil(request.data) && request.raw
 //@ assert before call (*Sync).commit#1: [delivered-data-no-open-dependency] a1 == request && a1.data == c19Data && a1.deps == 0 && len(requests) == 0 && !a1.raw
 //@ assert before call (*Sync).commit#2: [raw-delivered-data] a1 == request && a1.data == item.Data && a1.raw
-//@ assert after store deps#1: [adds-children-count] request.deps == c19Deps0 + len(requests) || request.deps == c19Deps0 + len(requests) - 2^64
+// (stated as invariant of the scheduling loop, so that it is checked where that loop is entered whether or not a store to deps precedes it:
+//  a dropped or mis-targeted `request.deps += len(requests)` fails [adds-children-count].init)
+//@ loop #2 invariant [adds-children-count] c19Deps0 == entry(c19Deps0) && (request.deps == c19Deps0 + len(requests) || request.deps == c19Deps0 + len(requests) - 2^64)
 //@ assert before call (*Sync).schedule#1: [schedules-exactly-the-children] 0 <= rangeindex + 1 && rangeindex + 1 < len(requests) && a1 == requests[rangeindex + 1]
 
 // ---------------------------------------------------------------------------------------------------------------------
